@@ -17,6 +17,8 @@ from vcommon import Prop
 import gen_c16
 
 _COUNTER = [0]
+import builtins as _b
+_BUILTINS_DICT = _b.__dict__
 _ADDR = re.compile(r"0x[0-9a-fA-F]+")
 SENTINEL = 777000
 
@@ -405,6 +407,7 @@ def pairing(old_ns, new_ns, modname):
     names = {}
     rnames = {}
     cellbad = set()
+    kindbad = set()
 
     def patchable(o):
         return isinstance(o, (types.FunctionType, type, dict)) or type(o).__module__ == modname
@@ -420,6 +423,8 @@ def pairing(old_ns, new_ns, modname):
             rnames.setdefault(id(n), set()).add(top)
         if type(o) is not type(n) and not (type(o).__module__ == modname and type(n).__module__ == modname):
             return
+        if isinstance(o, type) and isinstance(n, type) and kind_changed(o, n, modname):
+            kindbad.add(top)
         if isinstance(o, (list, tuple)):
             return  # containers other than dicts are replaced, not descended into
         if isinstance(o, (types.FunctionType, type)) and not same_shape(shape(o, modname), shape(n, modname)):
@@ -449,7 +454,7 @@ def pairing(old_ns, new_ns, modname):
     for i, s in rpairs.items():
         if len(s) > 1:
             bad |= rnames[i]
-    return sorted(bad), sorted(cellbad)
+    return sorted(bad), sorted(cellbad), sorted(kindbad)
 
 
 def kind_changed(old_val, fresh_val, modname):
@@ -468,6 +473,124 @@ def kind_changed(old_val, fresh_val, modname):
         if to != tn and {to, tn} & M:
             return True
     return False
+
+
+
+# ----------------------------------------------------------------------------
+# abstraction of real object graphs to the model heap (for K)
+# ----------------------------------------------------------------------------
+
+class Abstractor:
+    """id(real object) -> model id (index into the heap list); objects are kept alive so ids stay unique."""
+
+    def __init__(self, modname):
+        self.modname = modname
+        self.ids = {}
+        self.objs = []
+        self.tok = {}
+        self.keep = []
+        self.unsupported = []
+
+    def token(self, o):
+        if id(o) not in self.tok:
+            self.tok[id(o)] = len(self.tok)
+            self.keep.append(o)
+        return self.tok[id(o)]
+
+    def ref(self, o):
+        """model id of o, allocating (and queueing the object for description) if new"""
+        i = self.ids.get(id(o))
+        if i is None:
+            i = len(self.objs)
+            self.ids[id(o)] = i
+            self.objs.append(o)
+        return i
+
+    def is_modclass(self, o):
+        return isinstance(o, type) and o.__module__ == self.modname
+
+    def describe(self, o):
+        mn = self.modname
+        if isinstance(o, types.FunctionType):
+            cells = []
+            for c in o.__closure__ or ():
+                try:
+                    cells.append(self.ref(c.cell_contents))
+                except ValueError:
+                    self.unsupported.append("empty cell")
+            if hasattr(o, "__livepatch__") or hasattr(o, "__reload_update__"):
+                self.unsupported.append("hook")
+            return dict(k="func", name=o.__name__, modn=o.__module__, code=self.token(o.__code__),
+                        defaults=self.token(o.__defaults__), doc=self.token(o.__doc__), dict=self.ref(o.__dict__),
+                        cells=cells, freevars=list(o.__code__.co_freevars))
+        if self.is_modclass(o):
+            if type(o) is not type:
+                self.unsupported.append("metaclass")
+            if hasattr(o, "__livepatch__") or hasattr(o, "__reload_update__"):
+                self.unsupported.append("hook")
+            sl = o.__dict__.get("__slots__")
+            if sl is not None and not (isinstance(sl, (tuple, list)) and all(isinstance(x, str) for x in sl)):
+                self.unsupported.append("odd __slots__")
+                sl = None
+            for b in o.__bases__:
+                if b is not object and not self.is_modclass(b):
+                    self.unsupported.append("foreign base")
+            return dict(k="cls", name=o.__name__, modn=o.__module__, slots=list(sl) if sl is not None else None,
+                        bases=[self.ref(b) for b in o.__bases__ if self.is_modclass(b)],
+                        attrs=[[k, self.ref(v)] for k, v in sorted(o.__dict__.items())])
+        if o is _BUILTINS_DICT:
+            return dict(k="atom", ty="builtins.dict", val="<builtins namespace>")
+        if type(o) is dict:
+            if not all(isinstance(k, str) for k in o):
+                self.unsupported.append("non-str dict key")
+            return dict(k="dict", entries=[[str(k), self.ref(v)] for k, v in sorted(o.items(), key=lambda kv: str(kv[0]))])
+        if isinstance(o, types.MethodType):
+            return dict(k="meth", func=self.ref(o.__func__), self=self.ref(o.__self__))
+        if type(o) is staticmethod:
+            return dict(k="smeth", func=self.ref(o.__func__))
+        if type(o) is classmethod:
+            return dict(k="cmeth", func=self.ref(o.__func__))
+        if isinstance(o, types.ModuleType) and getattr(o, "__name__", None) == mn and type(o) is types.ModuleType:
+            return dict(k="module", dict=self.ref(o.__dict__))
+        if type(o).__module__ == mn and not isinstance(o, type):
+            d = getattr(o, "__dict__", None)
+            slots = []
+            seen = set()
+            for klass in type(o).__mro__:
+                for sname in klass.__dict__.get("__slots__", ()) or ():
+                    if isinstance(sname, str) and sname not in seen and sname not in ("__dict__", "__weakref__"):
+                        seen.add(sname)
+                        try:
+                            slots.append([sname, self.ref(getattr(o, sname))])
+                        except AttributeError:
+                            pass
+            if hasattr(type(o), "__livepatch__") or hasattr(type(o), "__reload_update__"):
+                self.unsupported.append("hook")
+            return dict(k="inst", cls=self.ref(type(o)), dict=self.ref(d) if type(d) is dict else None, slots=sorted(slots))
+        if isinstance(o, dict):
+            self.unsupported.append("dict subclass")
+        try:
+            val = repr(o)[:200]
+        except Exception:
+            val = "<unrepr %d>" % id(o)
+        if not isinstance(o, (int, float, str, bytes, tuple, frozenset, type(None), bool)):
+            val = "%s@%d" % (val, self.token(o))      # identity-compared values are only equal to themselves
+        elif isinstance(o, tuple) and not all(isinstance(x, (int, float, str, bytes, type(None), bool)) for x in o):
+            val = "%s@%d" % (val, self.token(o))
+        return dict(k="atom", ty=type(o).__module__ + "." + type(o).__qualname__, val=val)
+
+    def heap(self, start=0):
+        """describe every object with id >= start (describing allocates the children)"""
+        out = []
+        i = start
+        while i < len(self.objs):
+            out.append(self.describe(self.objs[i]))
+            i += 1
+        return out
+
+    def redescribe(self, upto):
+        """current description of the first `upto` objects (post state); may allocate ids for objects not seen before"""
+        return [self.describe(self.objs[i]) for i in range(upto)]
 
 
 # ----------------------------------------------------------------------------
@@ -527,8 +650,8 @@ def diff_obs(got, want, prefix=""):
 
 class C16(Prop):
     id = "C16"
-    driver = None
-    lean_modules = []
+    driver = "C16"
+    lean_modules = ["Pfb.C16.Model"]
     theorems = []
     anchors = [
         ("lib/python/pyflyby/_livepatch.py", "livepatch"),
@@ -637,14 +760,33 @@ class C16(Prop):
             except BaseException as e:
                 obs["exec_fails"] = _exc_name(e)
             old_ns = {n: md[n] for n in pubs}
-            multi, cellbad, kindch = [], [], {}
+            multi, cellbad, kindbad, kindch = [], [], [], {}
             if fresh is not None:
-                multi, cellbad = pairing(old_ns, fresh.__dict__, name)
+                multi, cellbad, kindbad = pairing(old_ns, fresh.__dict__, name)
                 for n, fv in fresh.__dict__.items():
                     if isinstance(fv, type) or type(fv).__module__ == name:
                         kindch[n] = kind_changed(old_ns.get(n), fv, name)
+            # ---- abstraction for the model (K) ---------------------------------------
+            import pyflyby._livepatch as LP
+            ab = Abstractor(name)
+            kinfo = dict(module=ab.ref(m))
+            kinfo["pre"] = ab.heap(0)
+            n_pre = len(ab.objs)
+            kinfo["sysmods"] = [[name, ab.ids[id(sys.modules[name])]]] if id(sys.modules.get(name)) in ab.ids else []
+            real_lp = LP.livepatch
+
+            def spy(old, new, modname=None, visit_stack=(), cache=None, assume_type=None, heed_hook=True):
+                if assume_type is types.ModuleType and visit_stack == () and old is m and "objs" not in kinfo:
+                    k0 = len(ab.objs)
+                    ab.ref(new)
+                    kinfo["objs"] = ab.heap(k0)
+                    kinfo["n_mid"] = len(ab.objs)
+                return real_lp(old, new, modname=modname, visit_stack=visit_stack, cache=cache,
+                               assume_type=assume_type, heed_hook=heed_hook)
             # ---- the attempt -------------------------------------------------------
             _write(path, new_text, now)
+            kinfo["mtime"] = repr(os.stat(path).st_mtime)
+            LP.livepatch = spy
             arg = m if case.get("via", "module") == "module" else (name if case["via"] == "name" else path)
             raised = None
             try:
@@ -652,7 +794,16 @@ class C16(Prop):
             except BaseException as e:
                 raised = _exc_name(e)
                 obs["raised_msg"] = str(e)[:120]
+            finally:
+                LP.livepatch = real_lp
             obs["raised"] = raised
+            n_mid = kinfo.get("n_mid", n_pre)
+            kinfo["post"] = ab.redescribe(n_mid)
+            kinfo["post_extra"] = ab.heap(n_mid)
+            sm = sys.modules.get(name)
+            kinfo["sysmod_post"] = ab.ids.get(id(sm)) if sm is not None else None
+            kinfo["unsupported"] = sorted(set(ab.unsupported))
+            obs["k"] = kinfo
             obs["sysmod_same"] = sys.modules.get(name) is sysmod_before and sysmod_before is m
             if obs["exec_fails"] is not None:
                 # ---- rollback facts ------------------------------------------------
@@ -688,16 +839,37 @@ class C16(Prop):
                           cell_unpatchable=n in cellbad)
                 ismod = fv is not None and (isinstance(fv, type) or type(fv).__module__ == name)
                 fl["inmod_base"] = bool(ismod and inmod_base(fv, name))
-                fl["kind_changed"] = bool(ismod and kindch.get(n))
+                fl["kind_changed"] = bool(ismod and kindch.get(n)) or n in kindbad
+                fl["calls_foreign"] = fl["foreign"]
+                fl["slots_mixed"] = False
+                if ismod and not isinstance(fv, type):
+                    sl = [k for k in type(fv).__mro__ if k.__dict__.get("__slots__")]
+                    fl["slots_mixed"] = bool(sl) and (len(sl) > 1 or hasattr(fv, "__dict__"))
                 flags[n] = fl
             # a name that calls (through module globals) a flagged name inherits the flags that describe *what* is bound
             deps = {n: global_deps(fd[n], name) & set(flags) for n in flags if n in fd}
+            byid = {}
+            for n in flags:
+                if n in fd and (isinstance(fd[n], (types.FunctionType, type)) or type(fd[n]).__module__ == name):
+                    byid.setdefault(id(fd[n]), set()).add(n)
+
+            def reach_names(o, depth, seen):
+                out = set(byid.get(id(o), ()))
+                if depth < 4 and id(o) not in seen:
+                    seen.add(id(o))
+                    for _, c in _children(o, name):
+                        if isinstance(c, (types.FunctionType, types.MethodType, staticmethod, classmethod, type, dict, list, tuple)) \
+                                or type(c).__module__ == name:
+                            out |= reach_names(c, depth + 1, seen)
+                return out
+            for n in deps:
+                deps[n] |= reach_names(fd[n], 0, set()) - {n}
             changed = True
             while changed:
                 changed = False
                 for n, ds in deps.items():
                     for dn in ds:
-                        for k in ("multi_paired", "cell_unpatchable", "kind_changed"):
+                        for k in ("multi_paired", "cell_unpatchable", "kind_changed", "calls_foreign"):
                             if flags[dn][k] and not flags[n][k]:
                                 flags[n][k] = True
                                 changed = True
@@ -793,6 +965,8 @@ class C16(Prop):
             fails.append(dict(what="names differ from a fresh import", got=obs["names_post"], want=obs["names_fresh"], **brief))
             return fails
         flags = obs["flags"]
+        any_foreign = any(fl.get("foreign") for fl in flags.values())
+        brief["any_scratch_born"] = any_foreign
         post, fresh = obs["post"], obs["fresh"]
         for n in post["names"]:
             d = diff_obs(post["values"][n], fresh["values"][n])
@@ -838,6 +1012,126 @@ class C16(Prop):
                 fails.append(dict(what="captured method does not behave as the new source", name=q, got=mi["got"],
                                   want=mi["want"], identity=mi, flags=flags.get(cn), **brief))
         return fails[:6]
+
+
+    # -- model ------------------------------------------------------------------------
+    ERRMAP = {"TypeError": "TypeError", "AttributeError": "AttributeError", "AssertionError": "AssertionError",
+              "KeyError": "KeyError"}
+
+    def _k_skip(self, case, obs):
+        k = obs.get("k")
+        if obs.get("trivial") or not k:
+            return "trivial"
+        if k["unsupported"]:
+            return "unsupported: " + ",".join(k["unsupported"])
+        if "__bases__ assignment" in (obs.get("raised_msg") or ""):
+            return "CPython layout check on __bases__ (not modelled)"
+        if obs.get("exec_fails") is None and "objs" not in k:
+            return "livepatch was not reached"
+        return None
+
+    def model_requests(self, case, obs):
+        if self._k_skip(case, obs):
+            return []
+        k = obs["k"]
+        req = dict(op="xreload", heap=k["pre"], sysmods=k["sysmods"], objs=k.get("objs", []),
+                   name=k["sysmods"][0][0] if k["sysmods"] else "?", module=k["module"],
+                   compileOk=obs.get("exec_fails") != "SyntaxError",
+                   mtime=dict(k="atom", ty="builtins.float", val=k["mtime"]), fuel=4000)
+        if obs.get("exec_fails") is not None and obs["exec_fails"] != "SyntaxError":
+            req["fail"] = (case.get("fail") or {}).get("at", 0)
+            req["objs"] = []
+        return [req]
+
+    @staticmethod
+    def _norm(o):
+        o = dict(o)
+        for f in ("attrs", "entries", "slots"):
+            if isinstance(o.get(f), list) and f != "slots" or (f == "slots" and o.get("k") == "inst"):
+                o[f] = sorted(o[f])
+        return o
+
+    def compare(self, case, obs, resps):
+        r = resps[0]
+        k = obs["k"]
+        res = r["result"]
+        # outcome
+        if obs.get("exec_fails") is not None:
+            want = "SyntaxError" if obs["exec_fails"] == "SyntaxError" else "execFailed"
+            got = res.get("err")
+            got = "execFailed" if isinstance(got, dict) else got
+            if got != want:
+                return "exec failure: model says %r" % (res,)
+            if obs.get("raised") is None:
+                return "impl swallowed the exec failure, model raises"
+        elif obs.get("raised") is not None:
+            want = self.ERRMAP.get(obs["raised"], obs["raised"])
+            if res.get("err") != want:
+                return "impl raised %s (%s), model says %r" % (obs["raised"], obs.get("raised_msg"), res)
+        else:
+            if "ok" not in res:
+                return "impl succeeded, model says %r" % (res,)
+            if res["ok"] != k["module"]:
+                return "model returns object %r, impl returns the old module" % (res["ok"],)
+        # registry
+        sm = dict((a, b) for a, b in r.get("sysmods", []))
+        name = k["sysmods"][0][0] if k["sysmods"] else "?"
+        if sm.get(name) != k["sysmod_post"]:
+            return "sys.modules[name]: model %r impl %r" % (sm.get(name), k["sysmod_post"])
+        if "err" in res and obs.get("exec_fails") is None:
+            return None     # livepatch itself failed: the model does not return the half-patched heap
+        # heap, up to renaming of ids allocated during the run
+        mh = r["heap"]
+        ih = k["post"] + k["post_extra"]
+        n = len(k["post"])
+        fwd, bwd = {}, {}
+        todo = [(i, i) for i in range(n)]
+        for i in range(n):
+            fwd[i] = i
+            bwd[i] = i
+        seen = set()
+
+        def pair(a, b, where):
+            if a < n or b < n:
+                if a != b:
+                    return "%s: model id %d, impl id %d" % (where, a, b)
+                return None
+            if fwd.get(a, b) != b or bwd.get(b, a) != a:
+                return "%s: inconsistent renaming %d~%d" % (where, a, b)
+            fwd[a] = b
+            bwd[b] = a
+            todo.append((a, b))
+            return None
+        while todo:
+            a, b = todo.pop()
+            if (a, b) in seen:
+                continue
+            seen.add((a, b))
+            if a >= len(mh) or b >= len(ih):
+                return "dangling id model %d impl %d" % (a, b)
+            mo, io = self._norm(mh[a]), self._norm(ih[b])
+            if mo["k"] != io["k"]:
+                return "object %d: kind model %s impl %s" % (a, mo["k"], io["k"])
+            for f in sorted(set(mo) | set(io)):
+                x, y = mo.get(f), io.get(f)
+                where = "object %d (%s %s).%s" % (a, mo["k"], mo.get("name", ""), f)
+                if f in ("dict", "cls", "func", "self") and isinstance(x, int) and isinstance(y, int):
+                    d = pair(x, y, where)
+                elif f in ("cells", "bases"):
+                    d = None if len(x) == len(y) else where + ": length"
+                    for u, v in zip(x, y):
+                        d = d or pair(u, v, where)
+                elif f in ("attrs", "entries") or (f == "slots" and mo["k"] == "inst"):
+                    d = None if [u[0] for u in x] == [v[0] for v in y] else \
+                        "%s: keys model %s impl %s" % (where, [u[0] for u in x][:12], [v[0] for v in y][:12])
+                    if d is None:
+                        for u, v in zip(x, y):
+                            d = d or pair(u[1], v[1], where + "[%s]" % u[0])
+                else:
+                    d = None if x == y else "%s: model %r impl %r" % (where, x, y)
+                if d:
+                    return d
+        return None
 
     def nontrivial_key(self, case, obs):
         if obs.get("trivial"):
@@ -894,10 +1188,15 @@ class C16(Prop):
         if w.startswith("class relation differs"):
             return (fa.get("bound") == "new" and bool(fa.get("foreign"))) or (fb.get("bound") == "new" and bool(fb.get("foreign")))
         if w.startswith("namespace differs"):
-            return bool(fa.get("foreign")) and (f.get("phase") == 2 or bool(case.get("pre"))
-                                                or any("global " in st for st in case["new"]))
+            writer = any("global " in st for st in case["new"])
+            zsuper = any("super()" in st for st in case["new"])
+            return ((bool(fa.get("foreign")) and (f.get("phase") == 2 or bool(case.get("pre")) or writer or zsuper))
+                    or (bool(fa.get("calls_foreign")) and (bool(case.get("pre")) or f.get("phase") == 2))
+                    or (writer and bool(f.get("any_scratch_born"))))
         if w.startswith(("captured reference does not behave", "captured method does not behave")):
-            return bool(fa.get("foreign")) and bool(case.get("pre"))
+            writer = any("global " in st for st in case["new"])
+            return ((bool(fa.get("calls_foreign")) and bool(case.get("pre")))
+                    or (writer and bool(f.get("any_scratch_born"))))
         if w.startswith("aliasing among names"):
             return bool(fa.get("foreign"))
         return False
@@ -922,8 +1221,13 @@ class C16(Prop):
         fa, fb = f.get("flags") or {}, f.get("flags_b") or {}
         if f.get("what", "").startswith("class relation differs"):
             return bool(fa.get("multi_paired")) and bool(fb.get("multi_paired"))
-        return (f.get("what", "").startswith(("aliasing among names", "namespace differs", "captured reference does not behave"))
+        return (f.get("what", "").startswith(("aliasing among names", "namespace differs", "captured reference", "captured method"))
                 and bool(fa.get("multi_paired")))
+
+    @staticmethod
+    def _fam_slots_mixed(case, f):
+        return (f.get("what", "").startswith(("namespace differs", "captured reference does not behave"))
+                and bool((f.get("flags") or {}).get("slots_mixed")))
 
     @staticmethod
     def _fam_raise(sub):
@@ -942,6 +1246,7 @@ C16.families = {
     "unpatchable_object_in_closure_cell": C16._fam_cell,
     "method_kind_changed": C16._fam_kind,
     "aliasing_changed_between_versions": C16._fam_alias,
+    "slots_instance_partially_synced": C16._fam_slots_mixed,
     "slots_instance_setattr_typeerror": C16._fam_raise("setattr expected 3 arguments"),
     "class_dict_descriptor_not_writable": C16._fam_raise("attribute '__dict__' of 'type' objects is not writable"),
     "bases_assignment_layout": C16._fam_raise("__bases__ assignment"),
